@@ -454,6 +454,9 @@ func init() {
 		}
 		return e.mkStr(out)
 	})
+	// the model clock has no zone: UTC/Local are the identity
+	reg("(time.Time).UTC", func(e *Engine, args []Value, fn *ssa.Function) Value { return args[0] })
+	reg("(time.Time).Local", func(e *Engine, args []Value, fn *ssa.Function) Value { return args[0] })
 	reg("(time.Time).Sub", func(e *Engine, args []Value, fn *ssa.Function) Value {
 		return e.ctx.Sub(e.timeNs(args[0]), e.timeNs(args[1]))
 	})
